@@ -30,6 +30,7 @@ Proof.
   - intros k. destruct (k =? 1); [repeat constructor; unfold ok_idx; lia|constructor].
   - cbn. discriminate.
   - cbn. lia.
+  - cbn. lia.
 Qed.
 
 (* what happens in these runs (epoll-timerfd = 0 and poll = 3 shown; computed) *)
@@ -49,7 +50,7 @@ Qed.
 Definition ex_faults : faults :=
   {| no_pwait2 := true; perm_pwait2 := false; no_timerfd := true; no_ppoll := true;
      no_eventfd2 := true; no_eventfd := true; no_create1 := false; emfile := false;
-     eintr_waits := [2]; eintr_ctl := 0 |}.
+     eintr_waits := [2]; eintr_ctl := 0; efd_ok := 0 |}.
 
 Definition ex_all_f (be : Z) : scenario :=
   {| sc_backend := be; sc_faults := ex_faults; sc_limit := 10;
@@ -58,7 +59,7 @@ Definition ex_all_f (be : Z) : scenario :=
 
 Lemma ex_all_f_wf : forall be, 0 <= be <= 3 -> wf_scenario (ex_all_f be).
 Proof.
-  intros be Hbe. pose proof (ex_all_wf be Hbe) as W. destruct W as [W1 W2 W3 W4 W5 W6 W7].
+  intros be Hbe. pose proof (ex_all_wf be Hbe) as W. destruct W as [W1 W2 W3 W4 W5 W6 W7 W8].
   constructor; cbn [ex_all_f sc_backend sc_limit sc_setup sc_handlers sc_wait sc_faults]; try assumption;
     try (cbn; lia); try (cbn; discriminate).
 Qed.
@@ -79,4 +80,57 @@ Lemma ex_all_f_runs : forall be, In be [0; 1; 2; 3] ->
 Proof.
   intros be H. cbn [In] in H.
   destruct H as [<-|[<-|[<-|[<-|[]]]]]; vm_compute; repeat split.
+Qed.
+
+(* eventfd2 / eventfd start failing (ENOSYS) after ONE descriptor has been created: raw event 0 is registered
+   while eventfd creation works (eventfd-backed: one descriptor for both ends), raw event 1 after the cut
+   (pipe-backed: two descriptors).  Both are posted before iv_main and again from outside at the second wait; both
+   handlers run twice and unregister their object the second time (one close for the eventfd, two for the pipe). *)
+Definition ex_cut_faults : faults :=
+  {| no_pwait2 := false; perm_pwait2 := false; no_timerfd := false; no_ppoll := false;
+     no_eventfd2 := true; no_eventfd := true; no_create1 := false; emfile := false;
+     eintr_waits := []; eintr_ctl := 0; efd_ok := 1 |}.
+
+Definition ex_cut (be : Z) : scenario :=
+  {| sc_backend := be; sc_faults := ex_cut_faults; sc_limit := 8;
+     sc_setup := [ARwReg 0; ARwReg 1; ARwPost 0; ARwPost 1];
+     sc_handlers := fun k => if k =? 400 then [[]; [ARwUnreg 0]] else if k =? 401 then [[]; [ARwUnreg 1]] else [];
+     sc_wait := fun k => if k =? 2 then [ARwPost 0; ARwPost 1] else [];
+     sc_rot := fun _ => 0 |}.
+
+Lemma ex_cut_wf : forall be, 0 <= be <= 3 -> wf_scenario (ex_cut be).
+Proof.
+  intros be Hbe. constructor; cbn [ex_cut sc_backend sc_limit sc_setup sc_handlers sc_wait sc_faults].
+  - exact Hbe.
+  - lia.
+  - repeat constructor; unfold ok_idx; lia.
+  - intros k. destruct (k =? 400); [repeat constructor; unfold ok_idx; lia|].
+    destruct (k =? 401); [repeat constructor; unfold ok_idx; lia|]. constructor.
+  - intros k. destruct (k =? 2); [repeat constructor; unfold ok_idx; lia|constructor].
+  - cbn. discriminate.
+  - cbn. lia.
+  - cbn. lia.
+Qed.
+
+Definition count_ev (p : tev -> bool) (tr : list tev) : nat := length (filter p tr).
+Definition is_raw_call (j : Z) (e : tev) : bool := match e with TCallRaw i => i =? j | _ => false end.
+Definition is_close (e : tev) : bool := match e with TKClose _ => true | _ => false end.
+
+(* first descriptor the library creates for a raw event: 1001 under the epoll methods (1000 is the epoll
+   descriptor), 1000 under poll / ppoll *)
+Definition ex_cut_base (be : Z) : Z := if be <? 2 then 1001 else 1000.
+
+Lemma ex_cut_runs : forall be, In be [0; 1; 2; 3] ->
+  let tr := run_scenario (ex_cut be) in
+  efd_ok (sc_faults (ex_cut be)) = 1 /\
+  count_ev (is_raw_call 0) tr = 2%nat /\ count_ev (is_raw_call 1) tr = 2%nat /\
+  (* raw event 0: one descriptor (eventfd); raw event 1: the next two (pipe) *)
+  In (TKClose (ex_cut_base be)) tr /\ In (TKClose (ex_cut_base be + 1)) tr /\ In (TKClose (ex_cut_base be + 2)) tr /\
+  count_ev is_close tr = (if be <? 2 then 4%nat else 3%nat) /\
+  In (TEnd 0 0) tr /\ In (TDone 0) tr /\ ~ In TLimit tr /\ ~ In THang tr /\
+  mon_fails tr = [] /\ gmon_fails (ex_cut be) tr = [].
+Proof.
+  intros be H. cbn [In] in H.
+  destruct H as [<-|[<-|[<-|[<-|[]]]]]; vm_compute;
+    repeat split; try tauto; try (intros H; repeat (destruct H as [H|H]; [discriminate H|]); exact H).
 Qed.
